@@ -108,6 +108,13 @@ def run(P, R, tier):
     # ---------------------------------------------------------------- C09.b
     si = [c for c in astq.own_calls(pp) if isinstance(c.func, ast.Attribute) and c.func.attr == 'set_index']
     R.floor('C09.b', 'set_index calls in pack_partitions', len(si), 1)
+    # every set_index of pack_partitions sorts: `sorted=True` tells dask that the rows are in index order already - no shuffle and no sort happens, the divisions are
+    # taken from each partition's first and last row.  Nothing establishes that order for the NEW distances (another p, other total bounds, a filtered frame)
+    for c_ in si:
+        srt = astq.arg_of(c_, kw='sorted')
+        R.check(srt is None or (isinstance(srt, ast.Constant) and srt.value is False), 'C09.b', pp, c_, 'set_index sorts the rows (no `sorted=True` promise)',
+                f'`{norm(c_)[:90]}` promises dask that the rows are already in index order: no shuffle and no sort is done, so rows whose new distances are not in the order of the old ones '
+                'stay where they are (unsorted partitions, overlapping divisions)', construct='set_index sorts')
     c = si[0]
     name = astq.const_str(c.args[0]) if c.args else None
     R.check(bool(colnames) and name == colnames[0], 'C09.b', pp, c, f'set_index uses the column that was assigned ({name})', f'set_index uses `{name}` but the distances were assigned as {colnames}')
